@@ -291,6 +291,8 @@ UNITS = [{
                 # success: the idx-th tail, reached through idx pairs; the machine is not touched
                 (['C14'], 'r matches Ok(t) ==> t == tail_ptr(old(vm).heap_spec(), *list, idx as nat) && has_tails(old(vm).heap_spec(), *list, idx as nat)'),
                 (['C14'], '*final(vm) == *old(vm)'),
+                # R7RS: a list with at least idx pairs has an idx-th tail: never refused
+                (['C14'], 'has_tails(old(vm).heap_spec(), *list, idx as nat) ==> r is Ok'),
             ],
             'loops': {0: '''invariant
                     rest_idx <= idx, *vm == *old(vm), vm.stack_spec().wf(),
@@ -314,7 +316,12 @@ UNITS = [{
             'ensures': [
                 (['C14'], '''r matches Ok(x) ==> (cell_index(old(vm).heap_spec(), arg(*old(vm), 1)) matches Some(i)
                     && x == tail_ptr(old(vm).heap_spec(), arg(*old(vm), 2), i as nat) && has_tails(old(vm).heap_spec(), arg(*old(vm), 2), i as nat))'''),
+                # a list (pair or ()) with at least i pairs is never refused
+                (['C14'], '''(arg(*old(vm), 0) == VCell::ArgumentCount(2) && old(vm).stack_spec().sp_spec() >= 3
+                    && (cell_index(old(vm).heap_spec(), arg(*old(vm), 1)) matches Some(i) && has_tails(old(vm).heap_spec(), arg(*old(vm), 2), i as nat)
+                        && (heap_deref(old(vm).heap_spec(), arg(*old(vm), 2)) is Pair || heap_deref(old(vm).heap_spec(), arg(*old(vm), 2)) is Nil))) ==> r is Ok'''),
             ],
+            'body_start': 'proof { if old(vm).stack_spec().sp_spec() >= 3 { axiom_cow_cell_ref(&arg(*old(vm), 2)); } }',
         },
     },
 }]
